@@ -44,7 +44,9 @@ CacheSafe == /\ \A uu \in cachew : cFetch[uu]
              /\ \A uu \in URLS : ~cFetch[uu] => cache[uu] = cCache[uu]
 \* a fresh cache copy is never replaced except after a refresh; a stale or missing one is fetched before use
 NeverServesStale == \A uu \in URLS : (loaded[uu] \notin {Absent, NoneV}) => cache[uu] = "fresh"
-Stopped(p) == pc[p] \in {"Done", "Halt", "DHalt"}
+Stopped(p) == pc[p] \in {"Done", "HDead", "DDead"}
 \* a thread waiting to be started that never will be is not "blocked": it is not a call of anybody
-Progress == (\A p \in Procs : Stopped(p) \/ (p \in Thr /\ pc[p] = "TBegin" /\ tstate[p] = "unborn")) \/ ENABLED Next
+\* nor is one that was created and never started (its creator died first, or its table entry was overwritten): joining it raises, it blocks nobody
+IdleThread(p) == p \in Thr /\ pc[p] = "TBegin" /\ tstate[p] \in {"unborn", "created"}
+Progress == (\A p \in Procs : Stopped(p) \/ IdleThread(p)) \/ ENABLED Next
 ====
